@@ -7,9 +7,10 @@ TRUSTED_BASE = [
     "axioms: at most propext, Classical.choice, Quot.sound (audited per theorem with #print axioms on every run); no sorry/admit/native_decide/bv_decide/own axioms (grep on every run)",
     "Mathlib v4.33.0 modules imported by proof files only (Mathlib.Logic.Relation and single tactic/list modules); model files are import-free",
     "the hand-written Lean model of the Rust code (lean/OHVerif/Model) - tied to /repo only by the differential correspondence check run on every invocation",
-    "the correspondence check itself: Rust harness generators, the wire encoding, the per-op comparison relations in lean/OHVerif/Model/Driver*.lean, catch_unwind",
+    "the correspondence check itself: Rust harness generators and replay mode, the wire encoding/decoding on both sides, catch_unwind, the dispatch of ops to relations in lean/OHVerif/Model/Driver*.lean, and this Python driver; the comparison relations themselves are NOT trusted: each comparator/oracle is proved to decide its specification relation (Props/Comparators, IsoCert, LaxDenote, C15Oracle, Oracles: soundness and, where stated, completeness), except the history comparator runHistoryRen (C09/C11 histories up to the renumbering returned by quotient steps), the C13 witness criteria and the C16 interpreter-log multiset, which are small Boolean functions read by eye",
     "rustc/cargo; usize modelled as unbounded Nat (no overflow above 2^64); Clone/PartialEq on labels as Lean equality",
-    "modelled, not verified: union-find with path compression and HashMap-based to_dense/sparse_bincount are replaced in the model by canonical-output algorithms (observed only through the contract checks)",
+    "modelled, not verified: std's HashMap and sort; the Rust union-find (rank, path compression, HashMap renumbering) and HashMap sparse_bincount have a line-by-line model proved equal to the canonical-output algorithms the other theorems use (Props/C07UnionFind)",
+    "serde/serde_json (C11's JSON clause): the documented text is a model function proved lossless (Props/C11Json); that the derives print it is compared on every case",
 ]
 
 ASSUMPTIONS = [
@@ -35,7 +36,7 @@ READY = {
     "OHVerif.Props.C12Subst", "OHVerif.Props.C13Native", "OHVerif.Props.C19Sem", "OHVerif.Props.C14Deriv",
     "OHVerif.Props.C14Poly", "OHVerif.Props.C07UnionFind", "OHVerif.Props.IsoCert",
     "OHVerif.Props.C11Json", "OHVerif.Props.C08Iter", "OHVerif.Props.Comparators",
-    "OHVerif.Props.LaxDenote", "OHVerif.Props.C15Oracle",
+    "OHVerif.Props.LaxDenote", "OHVerif.Props.C15Oracle", "OHVerif.Props.Oracles",
 }
 
 def _mods(*names):
@@ -46,10 +47,10 @@ _ADV = lambda g, n: [("adv1:" + g, n), ("adv2:" + g, n)]
 PROPS = {
     "C01": dict(modules=_mods("OHVerif.Props.C01", "OHVerif.Props.IsoCert"), groups=[("oh", 3000), ("law", 600)], deps=[("ff", 500), ("ic", 300), ("hg", 300)],
                 missing=[]),
-    "C02": dict(modules=_mods("OHVerif.Props.C02"), groups=[("oh", 1500), ("law", 1500), ("lax.cat", 1500)], deps=[("ic", 300), ("ff", 300), ("hg", 300)]),
+    "C02": dict(modules=_mods("OHVerif.Props.C02", "OHVerif.Props.Oracles"), groups=[("oh", 1500), ("law", 1500), ("lax.cat", 1500)], deps=[("ic", 300), ("ff", 300), ("hg", 300)]),
     "C03": dict(modules=_mods("OHVerif.Props.C03", "OHVerif.Props.IsoCert"), groups=[("law", 4000)], deps=[("oh", 800)]),
     "C04": dict(modules=_mods("OHVerif.Props.C04", "OHVerif.Props.C04Lax", "OHVerif.Props.IsoCert"), groups=[("law", 2500), ("oh", 1500), ("lax.cat", 1000), ("lawlax", 1500)], deps=[]),
-    "C05": dict(modules=_mods("OHVerif.Props.C05", "OHVerif.Props.C12Type", "OHVerif.Props.C14Optic"), groups=[("oh", 1500), ("hg", 1500), ("lax.cat", 800), ("functor", 300), ("dynfunctor", 400), ("optic", 300), ("ic", 1500), ("ff", 600), ("lax.edit", 1500)],
+    "C05": dict(modules=_mods("OHVerif.Props.C05", "OHVerif.Props.C12Type", "OHVerif.Props.C14Optic", "OHVerif.Props.Oracles"), groups=[("oh", 1500), ("hg", 1500), ("lax.cat", 800), ("functor", 300), ("dynfunctor", 400), ("optic", 300), ("ic", 1500), ("ff", 600), ("lax.edit", 1500)],
                 deps=[("ff", 400), ("ic", 400)]),
     "C06": dict(modules=_mods("OHVerif.Props.C06"), groups=[("ff", 3000)], deps=[("prim", 500)]),
     "C07": dict(modules=_mods("OHVerif.Props.C07", "OHVerif.Lemmas.VecBackend", "OHVerif.Props.C07UnionFind", "OHVerif.Props.Comparators"), groups=[("prim", 3000)], deps=[], release=True),
@@ -64,7 +65,7 @@ PROPS = {
     "C15": dict(modules=_mods("OHVerif.Props.C15", "OHVerif.Lemmas.Kahn", "OHVerif.Props.C15Oracle"), groups=[("graph", 3000)], deps=[("ic", 400), ("prim", 300)]),
     "C16": dict(modules=_mods("OHVerif.Props.C16"), groups=[("eval", 3000)], deps=[("graph", 600)]),
     "C17": dict(modules=_mods("OHVerif.Props.C17"), groups=[("oh", 2000), ("hg", 1500), ("graph", 800)], deps=[("prim", 300)], release=True),
-    "C18": dict(modules=_mods("OHVerif.Props.C18"), groups=[("graph", 3000)], deps=[("ic", 300)]),
+    "C18": dict(modules=_mods("OHVerif.Props.C18", "OHVerif.Props.Oracles"), groups=[("graph", 3000)], deps=[("ic", 300)]),
     "C19": dict(modules=_mods("OHVerif.Props.C19", "OHVerif.Props.C19Build", "OHVerif.Props.C19Sem"), groups=[("var", 2500)], deps=[("dynfunctor", 300), ("lax.edit", 300)]),
     "C20": dict(modules=_mods("OHVerif.Props.C20", "OHVerif.Props.IsoCert", "OHVerif.Props.Comparators"),
                 groups=_ADV("oh", 800) + _ADV("law", 600) + _ADV("graph", 700) + _ADV("eval", 600) + _ADV("functor", 300) + _ADV("ff", 500) + _ADV("prim", 500) + _ADV("hg", 400) + _ADV("ic", 300),
